@@ -258,7 +258,7 @@ fn check_writer(name: &'static str, c: &Case) -> Verdict {
         .label_if(c.workers > 1, "workers>1"))
 }
 
-pub const READERS: &[&str] = &["bgzf", "bam", "bam-eager", "sam", "cram", "vcf", "bcf", "fasta", "fastq", "gff", "bai", "csi", "tabix", "gzi", "fai", "crai"];
+pub const READERS: &[&str] = &["bgzf", "bam", "bam-eager", "sam", "cram", "vcf", "bcf", "fasta", "fastq", "gff", "gff-bufs", "bai", "csi", "tabix", "gzi", "fai", "crai"];
 pub const WRITERS: &[&str] = &["bgzf", "bam", "sam", "cram", "vcf", "bcf", "fastq", "bai", "csi", "tabix", "gzi", "fai", "crai"];
 
 pub fn property() -> Property {
